@@ -107,6 +107,7 @@ class ResponseHandler(BaseProtocol, DataQueue[tuple[RawResponseMessage, StreamRe
                 # which never happens if the peer stopped reading.
                 transport.abort()
             self.transport = None
+            self._wake_payload_reader()
             self._payload = None
             self._drop_timeout()
 
@@ -116,8 +117,21 @@ class ResponseHandler(BaseProtocol, DataQueue[tuple[RawResponseMessage, StreamRe
         if transport is not None:
             transport.abort()
             self.transport = None
+            self._wake_payload_reader()
             self._payload = None
             self._drop_timeout()
+
+    def _wake_payload_reader(self) -> None:
+        # connection_lost() cannot reach a payload that was dropped: a reader
+        # waiting for more of the body has to find out here that the connection
+        # is closed (StreamReader._wait() tests it before waiting again).
+        payload = self._payload
+        if (
+            isinstance(payload, StreamReader)
+            and not payload.is_eof()
+            and payload._waiter is not None
+        ):
+            set_result(payload._waiter, None)
 
     def is_connected(self) -> bool:
         return self.transport is not None and not self.transport.is_closing()
